@@ -1,13 +1,15 @@
 """C15 — every finite input yields a finite field in bounded time"""
 from corr import kern_family
+from checks import _sym
 from oracles import c15 as oracle
 
-GEN = ["Const", "Tol"]
-LEAN_TARGETS = ["MagpyVerif.Props.C15"]
-PROPS = ["MagpyVerif.Props.C15"]
+GEN = ["Const", "Tol"] + _sym.GEN
+LEAN_TARGETS = ["MagpyVerif.Props.C15"] + _sym.LEAN_TARGETS
+PROPS = ["MagpyVerif.Props.C15"] + _sym.PROPS
 
 
 def run(ctx, model_ok):
+    _sym.run(ctx, ctx.scale(140, 4000))
     if ctx.driver_ok:
         st = kern_family.run_stream(ctx, ctx.scale(400, 20000))
         ctx.cov["traces_validated_against_impl"] = st["rows"]
@@ -27,7 +29,11 @@ def run(ctx, model_ok):
                             "(exact-arithmetic termination with an explicit iteration bound IS proved for the scalar loops cel_iter0 and cel0, and for BHJM_circle on every input)",
                             "termination of the vectorised celv (per entry the cel0 loop executed at least once, without the kc == 0 guard) and of the el3 iterations: not modelled "
                             "(cel_iterv and the dispatcher cel_iter ARE modelled, tied by the kern stream and proved to terminate on batches)",
-                            "definedness of Cuboid/CylinderSegment/Triangle closed forms off their special sets; Cylinder (ported, single-row path): the near-axis Taylor branch r/r0 < 0.05 is proved to "
+                            "definedness of the CylinderSegment closed form off its special sets (not ported). Cuboid: the edge mask is proved to cover the zero set of all 24 logarithm factors "
+                            "(`cuboid_defined_off_edges`), arctan2(0,0) is proved to occur exactly on the three edge lines incl. their extensions, where the general branch IS reached "
+                            "(`cuboid_edge_extension_reaches_general`; harmless in IEEE arithmetic, probed); Triangle: defined off the closed edges EXCEPT on a spherical cap inside the branch-switch cone "
+                            "(`triangle_defined_off_edges`, `triangle_cap_singular`; recorded finding near-vertex); Polyline: `polyline_masks_cover_singular`; "
+                            "Tetrahedron / TriangularMesh: per face as Triangle, the barycentric division by det (tetraInside) is not shown non-zero here; Cylinder (ported, single-row path): the near-axis Taylor branch r/r0 < 0.05 is proved to "
                             "divide by positive numbers only and to need no elliptic integral (`cylinder_axis_branch_defined`); every cel0 call of both kernels is proved to have a "
                             "non-zero modulus off the masked edge and to return, hence BHJM_magnet_cylinder returns for every input with d > 0, h >= 0 (`cylinder_terminates`); "
                             "non-vanishing of the other divisors of the general diametral branch (r, r^2, ap, am) and of cel0's prologue is not shown; "
